@@ -18,6 +18,7 @@ LEVEL_TEXT = (
     "together and restored on every exit"
     "; every failure of reading a script file (not only OSError) skips that file only; an interpreter frame replaces the previous traceback frame only for the same function of the same file; raise statements build Python's cause/context chain"
     '; a raising done callback is reported and does not stop the others; native frames are positioned by the traceback entry, not by the frame object'
+    "; service entry points are whatever coroutine the handler starts as the run's task (a run started directly on the script function escapes to run_coro's catch-all); every native frame is reported; a SyntaxError without position is reported"
 )
 LEVEL_NOTE = "which calls run user code is a reviewed table (eval/call_func/call on evaluators and functions); traceback line numbers and text are not decided statically"
 TECHNIQUE = "flow analysis with exceptions injected at user-code call sites (escape analysis per entry point, handler reachability), sibling field agreement in the traceback builder, heap-restore"
